@@ -14,7 +14,7 @@ CHECKS = {
         technique="runtime monitoring: section-overlap + payload continuity monitors under a seeded scheduler; Miri and ThreadSanitizer on free-running production locks",
     ),
     "C05": dict(
-        level_text="Exploration by runtime monitoring: every raw release happylock issues is audited against the owner table (issuer must hold the lock, in that mode) and at the end of every episode every lock must be free. The same audit runs in the raw-lock fault sweeps (single-thread fault enumeration and concurrent episodes with one clean raw-lock panic): a release issued there for a healthy lock the caller does not hold is reported here too. Acquisitions are also made from destructors during an unrelated unwind.",
+        level_text="Exploration by runtime monitoring: every raw release happylock issues is audited against the owner table (issuer must hold the lock, in that mode) and at the end of every episode every lock must be free; a library panic that escapes an API call while the thread holds locks without a guard is a leak. Under the writer-preferring policy a phantom writer queues behind every shared hold of the single-thread sweeps (the state in which parking_lot reports is_locked_exclusive() and refuses new readers). The same audit runs in the raw-lock fault sweeps (single-thread fault enumeration and concurrent episodes with one clean raw-lock panic): a release issued there for a healthy lock the caller does not hold is reported here too. Acquisitions are also made from destructors during an unrelated unwind.",
         design_ref="DESIGN.md §3 C05",
         level_note="Trusted: audit lock owner table. Holds for the programs/schedules/fault positions produced.",
         technique="runtime monitoring: release audit in auditing raw locks",
@@ -23,7 +23,7 @@ CHECKS = {
 
 CHECKS.update({
     "C03": dict(
-        level_text="Exploration by runtime monitoring: at the first raw operation of every acquiring call the caller's held set (audit owner table) must be empty, and whenever an API hands the key back (guard drop, unlock*, failed try, scoped return or unwind) the caller must hold nothing; after every step the same locks are re-acquired at once with the key that came back. Random API sequences with phantom holders, the exhaustive blocking shape sweep, every concurrent episode, calls made from destructors during an unrelated unwind, and calls unwound by a raw-lock panic - sequentially at every raw-op index and in concurrent episodes where one thread's raw operation panics (cleanly) while others are blocked on, hold, or later ask for the lock it killed.",
+        level_text="Exploration by runtime monitoring: at the first raw operation of every acquiring call the caller's held set (audit owner table) must be empty, and whenever an API hands the key back (guard drop, unlock*, failed try, scoped return or unwind) the caller must hold nothing; after every step the same locks are re-acquired at once with the key that came back. Random API sequences with phantom holders, the exhaustive blocking shape sweep, every concurrent episode, calls made from destructors during an unrelated unwind, an observer inside every raw unlock of a guard release (the key must not be obtainable there), and calls unwound by a raw-lock panic - sequentially at every raw-op index and in concurrent episodes where one thread's raw operation panics (cleanly) while others are blocked on, hold, or later ask for the lock it killed.",
         design_ref="DESIGN.md §3 C03",
         level_note="Trusted: audit owner table; checked at API return, not at the raw unlock (scoped_* legitimately drops an owned key one statement before the release).",
         technique="runtime monitoring: held-set monitor at the client boundary over audit raw locks",
@@ -65,7 +65,7 @@ CHECKS.update({
         technique="runtime monitoring: reference-model (PoisonModel) comparison over generated panic histories",
     ),
     "C11": dict(
-        level_text="Fault enumeration by runtime monitoring: a typed panic is injected in the critical section of every (shape x mode x API flavour x key style) case and, under the seeded scheduler, in sections of concurrent programs with waiters; after the unwind is caught at the client boundary the monitors require the injected payload (not swallowed / replaced), an empty held set, no release audited as bad, an obtainable key, and progress of waiters (deadlock monitor / immediate re-acquisition). Every case is repeated from inside a destructor during an unrelated unwind (nested panic).",
+        level_text="Fault enumeration by runtime monitoring: a typed panic is injected in the critical section of every (shape x mode x API flavour x key style) case and, under the seeded scheduler, in sections of concurrent programs with waiters; after the unwind is caught at the client boundary the monitors require the injected payload (not swallowed / replaced), an empty held set, no release audited as bad, an obtainable key, no release rejected by the audit while the call and its panic unwound (also in the concurrent episodes), and progress of waiters (deadlock monitor / immediate re-acquisition). Every case is repeated from inside a destructor during an unrelated unwind (nested panic).",
         design_ref="DESIGN.md §3 C11",
         level_note="Trusted: audit owner table + release audit, scheduler. User panics and raw-lock faults are never combined in one episode.",
         technique="runtime monitoring with panic injection: owner-table, release-audit and key probes after caught unwinds",
@@ -83,7 +83,7 @@ CHECKS.update({
         technique="runtime monitoring: exhaustive enumeration against a reference oracle over audit raw locks",
     ),
     "C14": dict(
-        level_text="Other (compile-gated execution): one minimal offending program per escape route (202 routes: 62 hand-written escape shapes, including by-value consumption of collection guards and every unsafe-only entry point that bypasses the key, plus the cross product of every key-taking method of the 8 lock / wrapper / collection types with `()`, `&key` and - for guard APIs - `&mut key` in the key position), each with a compiling and running twin; rustc against the rlib built from the current tree decides; accepted offending programs are executed and must show their own harm. Plus run-time probes of which types implement Keyable (and that no key-carrying guard is Clone, Copy, Default, IntoIterator by value, or Send with a GuardSend raw lock), and the C06 KeyModel histories as run-time evidence on the accepted surface. Two routes are open on the current tree and recorded as known finding D2; defect D10 (second key after a refused get) was found by the KeyModel and repaired.",
+        level_text="Other (compile-gated execution): one minimal offending program per escape route (202 routes: 62 hand-written escape shapes, including by-value consumption of collection guards and every unsafe-only entry point that bypasses the key, plus the cross product of every key-taking method of the 8 lock / wrapper / collection types with `()`, `&key` and - for guard APIs - `&mut key` in the key position), each with a compiling and running twin; rustc against the rlib built from the current tree decides; accepted offending programs are executed and must show their own harm. Plus run-time probes of which types implement Keyable (and that no key-carrying guard or error value is Clone, Copy, Default, IntoIterator by value, or Send with a GuardSend raw lock), and the C06 KeyModel histories as run-time evidence on the accepted surface. Two routes are open on the current tree and recorded as known finding D2; defect D10 (second key after a refused get) was found by the KeyModel and repaired.",
         design_ref="DESIGN.md §3 C14, §2.8",
         level_note="The 'for all programs' quantifier is sampled by a finite corpus of escape shapes; rejection is rustc's observation. Every *violation* this lane reports is backed by an executed witness.",
         technique="compile-gated corpus with executed witnesses + runtime KeyModel monitor",
@@ -97,13 +97,13 @@ CHECKS.update({
         engine="compile-gate",
     ),
     "C16": dict(
-        level_text="Exploration by runtime monitoring + sanitizers: drop-counting tokens (table id -> drops, no addresses remembered) through every construction/destruction path of every collection kind and container shape, values written under a lock and compared positionally after extraction, also when a member lock has been killed (RawLock::poison) before the container is consumed; the same workload runs under Miri (leak check on, double free / use-after-free / uninit reads are UB reports) and, in the thorough tier, under valgrind memcheck. Each sanitizer lane first has to flag a canary.",
+        level_text="Exploration by runtime monitoring + sanitizers: drop-counting tokens (table id -> drops, no addresses remembered) through every construction/destruction path of every collection kind and container shape, values written under a lock and compared positionally after extraction, also when a member lock has been killed (RawLock::poison) before the container is consumed, and when extend / from_iter are fed by an iterator that panics part way; the same workload runs under Miri (leak check on, double free / use-after-free / uninit reads are UB reports) and, in the thorough tier, under valgrind memcheck. Each sanitizer lane first has to flag a canary.",
         design_ref="DESIGN.md §3 C16",
         level_note="Trusted: token table; Miri / memcheck as oracles for leaks and invalid frees. Guards that own heap memory are not forgotten under the leak detectors (that leak would be the test's own).",
         technique="runtime monitoring: exactly-once drop accounting + Miri / valgrind memcheck on the same workload",
     ),
     "C17": dict(
-        level_text="Exploration by runtime monitoring: every non-acquiring operation runs under a call context; the monitor rejects any blocking raw op inside it and any difference of the owner table before/after (transient try-acquire+release inside Debug is allowed). Locks are free, held by a phantom, held by the caller's own live guard, inside a running scoped closure, or held through a leaked guard; shapes with Poisonable leaves are swept a second time with every wrapper poisoned; every phantom-assignment case also formats into a sink that fails part way and with a payload whose Debug returns Err or panics.",
+        level_text="Exploration by runtime monitoring: every non-acquiring operation runs under a call context; the monitor rejects any blocking raw op inside it and any difference of the owner table before/after (transient try-acquire+release inside Debug is allowed). Locks are free, held by a phantom, held by the caller's own live guard, inside a running scoped closure, or held through a leaked guard; shapes with Poisonable leaves are swept a second time with every wrapper poisoned; every phantom-assignment case also formats into a sink that fails part way and with a payload whose Debug returns Err or panics; after operations that take &mut access the library's view of the locks (a try on the whole collection) must still agree with the audit table.",
         design_ref="DESIGN.md §3 C17",
         level_note="Trusted: audit owner table and call contexts. Found and fixed one genuine defect (Debug of a locked Mutex unlocked it).",
         technique="runtime monitoring: before/after owner-table diff + blocking-op detector around non-acquiring calls",
